@@ -1039,10 +1039,35 @@ fn run_random(args: &Args, cfg: Cfg, case_seed: u64, want_trace: bool) -> Outcom
     let steps = 300 + rng.below(501);
     let mut s = Sim::new(args, cfg, emb, want_trace);
     let mut schedule = Vec::new();
+    random_walk(&mut s, &mut rng, &p, steps, &mut schedule);
+    finish(s, schedule)
+}
+
+/// a directed script cut at a random point, continued by a seeded random walk: reaches the deep
+/// states of the scripts (a node leading twice with a rewritten log, answers held across terms) and
+/// then lets the scheduler loose on them
+fn run_mixed(args: &Args, bits: u64, case_seed: u64, want_trace: bool) -> (Cfg, Vec<Option<Vec<f32>>>, Outcome) {
+    let mut rng = Rng::new(case_seed);
+    let scripts = directed_scripts();
+    let (_, nodes, ops) = &scripts[rng.below(scripts.len())];
+    let cfg = Cfg::from_bits(*nodes, bits);
+    let emb = if rng.bool() { gen_embeddings(&mut rng, &cfg) } else { vec![None; cfg.nodes] };
+    let cut = rng.below(ops.len() + 1);
+    let p = profile(&mut rng, &cfg);
+    let extra = 60 + rng.below(300);
+    let mut s = Sim::new(args, cfg, emb.clone(), want_trace);
+    let mut schedule = Vec::new();
+    apply_ops(&mut s, &ops[..cut], &mut schedule);
+    let steps = s.step + extra;
+    random_walk(&mut s, &mut rng, &p, steps, &mut schedule);
+    (cfg, emb, finish(s, schedule))
+}
+
+fn random_walk(s: &mut Sim, rng: &mut Rng, p: &Profile, steps: usize, schedule: &mut Vec<Ev>) {
     let mut idle = 0;
     while s.step < steps && s.mon.found.is_none() && s.trouble.is_none() && idle < 50 {
         let seq0 = s.next_seq;
-        match gen_event(&mut rng, &p, &s) {
+        match gen_event(rng, p, s) {
             Some(ev) => {
                 if s.apply(&ev) {
                     schedule.push(ev);
@@ -1062,7 +1087,6 @@ fn run_random(args: &Args, cfg: Cfg, case_seed: u64, want_trace: bool) -> Outcom
             }
         }
     }
-    finish(s, schedule)
 }
 
 /// an explicit schedule, interpreted leniently (events that are not enabled are skipped), so every
@@ -1141,6 +1165,8 @@ fn absorb(r: &mut Report, cfg: &Cfg, o: &Outcome) {
     }
 }
 
+static SHRUNK: std::sync::Mutex<BTreeMap<String, u32>> = std::sync::Mutex::new(BTreeMap::new());
+
 fn report_outcome(args: &Args, r: &mut Report, part: &str, cfg: Cfg, emb: &[Option<Vec<f32>>], case_seed: Option<u64>, o: Outcome) {
     absorb(r, &cfg, &o);
     if let Some(t) = &o.trouble {
@@ -1166,9 +1192,14 @@ fn report_outcome(args: &Args, r: &mut Report, part: &str, cfg: Cfg, emb: &[Opti
         Some(f) => {
             r.eval(hash_combine(o.hash, cfg.bits() << 8 | cfg.nodes as u64), true);
             // shrink only while witnesses of this signature are still being kept
-            let kept = r.violations.iter().filter(|v| v.signature == f.signature).count();
-            let (sched, trace, detail, final_state) = if kept < 3 {
-                let small = shrink(args, cfg, emb, o.schedule.clone(), &f.signature, args.by_tier(250, 600));
+            let kept = {
+                let mut g = SHRUNK.lock().unwrap_or_else(|e| e.into_inner());
+                let e = g.entry(f.signature.clone()).or_insert(0);
+                *e += 1;
+                *e - 1
+            };
+            let (sched, trace, detail, final_state) = if kept < 3 || part.starts_with("replay") {
+                let small = shrink(args, cfg, emb, o.schedule.clone(), &f.signature, args.by_tier(200, 500));
                 let o2 = run_schedule(args, cfg, emb, &small, true);
                 match &o2.found {
                     Some(f2) if f2.signature == f.signature => (o2.schedule.clone(), o2.trace.clone(), f2.detail.clone(), o2.final_state.clone()),
@@ -1213,6 +1244,12 @@ fn random_case(args: &Args, i: u64, case_seed: u64, r: &mut Report) {
     } else {
         3
     };
+    if i % 4 == 3 && !args.extra.contains_key("nodes") {
+        let (cfg, emb, o) = run_mixed(args, (i / 4) % 8, case_seed, false);
+        r.count("mixed_cases", 1);
+        report_outcome(args, r, "mixed", cfg, &emb, Some(case_seed), o);
+        return;
+    }
     let nodes = args.extra_u64("nodes", nodes as u64) as usize;
     let cfg = Cfg::from_bits(nodes, i % 8);
     let o = run_random(args, cfg, case_seed, false);
@@ -1237,6 +1274,11 @@ fn run_script(args: &Args, cfg: Cfg, ops: &[Op], want_trace: bool) -> Outcome {
     let emb: Vec<Option<Vec<f32>>> = vec![None; cfg.nodes];
     let mut s = Sim::new(args, cfg, emb, want_trace);
     let mut executed = Vec::new();
+    apply_ops(&mut s, ops, &mut executed);
+    finish(s, executed)
+}
+
+fn apply_ops(s: &mut Sim, ops: &[Op], executed: &mut Vec<Ev>) {
     for op in ops {
         if s.mon.found.is_some() || s.trouble.is_some() {
             break;
@@ -1267,7 +1309,6 @@ fn run_script(args: &Args, cfg: Cfg, ops: &[Op], want_trace: bool) -> Outcome {
             }
         }
     }
-    finish(s, executed)
 }
 
 fn elect(l: usize, voters: &[usize]) -> Vec<Op> {
